@@ -10,6 +10,7 @@ from ..index import dotted, walk_no_nested, norm_text, AnalysisError
 from ..cfg import describe_path
 from .. import util as U
 from .. import locks as L
+from .. import flow as F
 from ..dtable import Interp, compare, fmt_val
 
 POOL = 'wpull.network.pool'
@@ -38,6 +39,11 @@ def run(ctx):
                       'lock later in the lock order; the lock-order graph is acyclic')
     ck.rule('C12-D6', 'clean drops a host entry iff it has no waiters and no connections, and drops both maps together')
     ck.rule('C12-D7', 'sessions register every connection they acquire and release all of them on exit')
+    ck.rule('C12-D8', 'cancellation and failure keep the bookkeeping whole: (a) a waiter cancelled in wait() passes the wake-up it may '
+                      'have consumed on (notify in a CancelledError/BaseException handler, then re-raise); (b) awaiting a deferred release '
+                      'is shielded from the cancellation of the task that happens to drain it; (c) a pool wrapper that does further '
+                      'work after checking a connection out gives it back on every exception edge before the connection is returned; '
+                      '(d) every override of acquire returns the connection')
 
     fields = {}
     for ci in (hp, cp):
@@ -265,7 +271,7 @@ def run(ctx):
             if got != want or (not ready and cmpv is None):
                 bad_rows.append('%s -> code %s, reference %s' % (fmt_val(v), got, want))
         a, b = sorted([it.t('len(self.busy)'), it.t('self.max_connections')])
-        extra_atoms = {k for o in leaves for k in o.val} - {('T', 'self.ready'), ('ord', a, b)}
+        extra_atoms = {k for o in leaves for k in o.val if not (k[0] == 'raises' and '.wait()' in k[1])} - {('T', 'self.ready'), ('ord', a, b)}
         ck.expect(not bad_rows and not extra_atoms and len(leaves) >= 3, 'C12-D3', hacq.qual,
                   'acquisition table (%d rows): idle connection reused, else created iff len(busy) < max, else wait' % len(leaves),
                   'acquisition decision differs from the reference: %s %s' % ('; '.join(bad_rows[:3]), sorted(extra_atoms) or ''), hacq.loc(loop))
@@ -434,6 +440,93 @@ def run(ctx):
     names = [U.attr_name(c) for c in sorted(U.calls(rl.node), key=lambda c: (c.lineno, c.col_offset))]
     okrl = 'release' in names and 'clean' in names and names.index('release') < names.index('clean')
     ck.expect(okrl, 'C12-D7', rl.qual, 'host_pool.release(connection) then clean()', 'ConnectionPool.release changed', rl.loc())
+    _d8_cancellation(ctx, fields)
+
+
+def _d8_cancellation(ctx, fields):
+    repo, ck, res = ctx.repo, ctx.check, ctx.res
+    pool_classes = [repo.cls(q) for q in fields]
+    # (a) wait() sites
+    n_wait = 0
+    for ci in pool_classes:
+        for m in ci.methods.values():
+            pm = U.parents(m.node)
+            for y in [n for n in walk_no_nested(m.node) if isinstance(n, ast.YieldFrom)]:
+                v = y.value
+                if not (isinstance(v, ast.Call) and isinstance(v.func, ast.Attribute) and v.func.attr == 'wait' and U.is_self_attr(v.func.value)
+                        and v.func.value.attr in fields[ci.qual] and fields[ci.qual][v.func.value.attr].kind == 'Condition'):
+                    continue
+                n_wait += 1
+                cond = v.func.value.attr
+                ok = False
+                for a in U.ancestors(y, pm):
+                    if isinstance(a, ast.Try) and any(y is x for b in a.body for x in ast.walk(b)):
+                        for h in a.handlers:
+                            types = [norm_text(t) for t in (h.type.elts if isinstance(h.type, ast.Tuple) else [h.type])] if h.type is not None else ['BaseException']
+                            if any(t in ('asyncio.CancelledError', 'CancelledError', 'BaseException') for t in types) \
+                                    and any(isinstance(c, ast.Call) and U.attr_name(c) in ('notify', 'notify_all') and U.is_self_attr(c.func.value, cond) for c in U.calls(h)) \
+                                    and h.body and isinstance(h.body[-1], ast.Raise) and h.body[-1].exc is None:
+                                ok = True
+                    if isinstance(a, (ast.FunctionDef, ast.AsyncFunctionDef)):
+                        break
+                ck.expect(ok, 'C12-D8', m.qual, 'yield from self.%s.wait() re-notifies when cancelled' % cond,
+                          'a waiter that has been notified and is cancelled before it runs swallows the wake-up: the connection that was '
+                          'released stays idle while another client keeps waiting', m.loc(y))
+    if n_wait == 0:
+        ck.bad('C12-D8', POOL, 'a wait() on a pool condition', 'no condition wait found in the pool classes (expected HostPool.acquire)')
+    # (b) draining deferred releases
+    cp = repo.cls(POOL + ':ConnectionPool')
+    n_drain = 0
+    for m in cp.methods.values():
+        defs = U.local_defs(m.node)
+        for y in [n for n in walk_no_nested(m.node) if isinstance(n, ast.YieldFrom)]:
+            v = y.value
+            inner = v.args[0] if isinstance(v, ast.Call) and (dotted(v.func) or '').endswith('shield') and v.args else v
+            if isinstance(inner, ast.Name) and any(vv is not None and '_release_tasks' in norm_text(vv) for vv, k, s_ in defs.get(inner.id, [])):
+                n_drain += 1
+                ck.expect(inner is not v, 'C12-D8', m.qual, 'yield from asyncio.shield(<deferred release task>)',
+                          'the deferred release is awaited directly: cancelling the client that happens to drain it cancels the release, '
+                          'and the connection stays checked out for ever', m.loc(y))
+    if n_drain == 0:
+        ck.bad('C12-D8', cp.qual, 'deferred release tasks are awaited somewhere', 'no await of a deferred release task found')
+    # (c) wrappers that check a connection out and then do more work; (d) acquire overrides return it
+    for ci in [c for c in repo.classes.values() if c is not cp and cp in repo.mro(c)]:
+        for m in ci.methods.values():
+            cfg = ctx.cfg(m)
+            if m.name == 'acquire':
+                rets = [n for n in cfg.nodes if n.kind == 'return']
+                okret = bool(rets) and all(n.stmt.value is not None for n in rets) and \
+                    cfg.find_path(cfg.entry, lambda x: x is cfg.exit, edge_ok=F.normal, stop=lambda x: x.kind == 'return') is None
+                ck.expect(okret, 'C12-D8', m.qual, 'acquire returns the connection on every path',
+                          'this override of acquire checks a connection out and returns None: the caller can neither use nor release it', m.loc())
+            for n in cfg.stmt_nodes():
+                st = n.stmt
+                if not (isinstance(st, ast.Assign) and len(st.targets) == 1 and isinstance(st.targets[0], ast.Name)):
+                    continue
+                acqs = [c for c in F.node_calls(n, 'acquire') if norm_text(c.func.value) == 'super()']
+                if not acqs:
+                    continue
+                nm = st.targets[0].id
+                # direct hand-over (`x = yield from super().acquire(...); return x`) needs nothing
+                nxt = [d for d, k in n.succ if F.normal(n, d, k)]
+                if all(d.kind == 'return' for d in nxt):
+                    continue
+
+                def gives_back(x, nm=nm):
+                    return any(U.attr_name(c) in ('release', 'no_wait_release') and c.args and norm_text(c.args[0]) == nm for c in F.node_calls(x))
+                # an exception edge after the check-out must reach a release of that connection before it leaves the function
+                def edge(a, b, k):
+                    if k in ('x:attr', 'x:subscript'):
+                        return False                      # attribute access / map stores on pool objects do not fail
+                    if k.startswith('x:') and a.kind == 'stmt' and all(U.attr_name(c) in ('close', 'debug', 'info', 'warning') for c in F.node_calls(a)) \
+                            and F.node_calls(a):
+                        return False                      # closing the connection / logging are total here
+                    return True
+                p = cfg.find_path(n, lambda x: x is cfg.xexit, edge_ok=edge, stop=gives_back,
+                                  first_edges=lambda a, b, k: F.normal(a, b, k))
+                ck.expect(p is None, 'C12-D8', m.qual, '%s is released when the work after the check-out fails' % nm,
+                          'an exception (or cancellation) after the connection was checked out leaves it checked out for ever: it is '
+                          'neither returned to the caller nor released', m.loc(st), path=describe_path(p) if p else None)
 
 
 def _ord(val, a, b):
@@ -454,6 +547,9 @@ def _acq_outcome(fi, loop, o, it):
             return 'create'
         return 'other:break with %s' % sorted(o.env.items())
     if any('.wait()' in e for e in o.effects):
+        return 'wait'
+    # the wait itself was cancelled / raised (handled by passing the wake-up on and re-raising): still the "wait" decision
+    if o.kind == 'raise' and any(k[0] == 'raises' and '.wait()' in k[1] and v != 'no' for k, v in o.val.items()):
         return 'wait'
     return 'other:%s:%s' % (o.kind, ' ; '.join(o.effects))
 
